@@ -55,7 +55,7 @@ type checkpoint struct {
 }
 
 func (s *checkpoint) Save() {
-	offsets, dirtyOffsets, anyDirtyOffset := s.stream.GetOffsets()
+	_, _, anyDirtyOffset := s.stream.GetOffsets()
 
 	if !anyDirtyOffset {
 		logger.Log.Trace("no need to save checkpoint")
@@ -64,6 +64,11 @@ func (s *checkpoint) Save() {
 
 	s.saveLock.Lock()
 	defer s.saveLock.Unlock()
+
+	// take the dirty set over before dumping it: an acknowledgement that lands while the store
+	// call is in flight marks the next save's set and is not wiped when this save succeeds
+	offsets, dirtyOffsets, _ := s.stream.GetOffsets()
+	s.stream.UnmarkDirtyOffsets()
 
 	checkpointDump := map[uint16]*models.CheckpointDocument{}
 
@@ -106,9 +111,9 @@ func (s *checkpoint) Save() {
 
 	if err == nil {
 		logger.Log.Trace("saved checkpoint")
-		s.stream.UnmarkDirtyOffsets()
 	} else {
 		logger.Log.Error("error while saving checkpoint document: %v", err)
+		s.stream.MarkDirtyOffsets(dirtyOffsetsDump)
 	}
 }
 
